@@ -23,6 +23,15 @@ def build(rng, with_links=True):
     from odfdo import Header, Paragraph
 
     text = " ".join(rng.choice(WORDS) for _ in range(rng.randint(1, 4)))
+    if with_links and rng.random() < 0.15:
+        # a link as a loaded document may hold it: white-space elements inside the link, text after it
+        T, E = (lambda s: {"k": "t", "s": cps(s)}), (lambda g, n=0: {"k": "e", "tag": g, "n": n})
+        toks = [T(rng.choice(["x ", "ab ", ""]))] if rng.random() < 0.7 else []
+        toks += [{"k": "o", "tag": "a"}, T(rng.choice(["two", "a", "ab"])), E("s", rng.choice([1, 2, 3])), T(rng.choice(["words", "b", "a"]))]
+        if rng.random() < 0.5:
+            toks += [E("tab"), T("col2")]
+        toks += [{"k": "c"}, T(rng.choice([" tail ab", "ab", " a b a"]))]
+        return ml.build([t for t in toks if t["k"] != "t" or t["s"]], "Paragraph" if rng.random() < 0.7 else "Header")
     par = Paragraph(text) if rng.random() < 0.7 else Header(1, text)
     for _ in range(rng.randint(0, 3)):
         tokens = ml.project(par)
